@@ -1,1 +1,333 @@
-fn main() { eprintln!("engine not built yet"); std::process::exit(2); }
+//! Harness of the `ops` family (C09, C10, C25): whole projects through the REAL compiler
+//! (in-process, via hx_projgen), the generated artifacts evaluated as JavaScript modules under node
+//! (`js/ops_eval.mjs`) and the runtime's own normalize / read functions run on them
+//! (`js/ops_runtime.mjs`).
+//!
+//! Line protocol (a case is a `case` line followed by the lines that refer to it; both the harness
+//! and the Lean driver keep the state of the current case):
+//!
+//! ```text
+//! case \t <id> \t <tag> \t <wire project | demo:<name>>
+//!        => ok \t <hex schema SDL> \t <pointer table> | diag \t <kinds> | panic \t <hex message>
+//! c09 \t <artifact path>
+//!        => <hex file content> \t v:<hex string value under node> | e:<why>      (or `missing`)
+//! graph
+//!        => <graph wire (graphwire.rs)> | e:<hex message>
+//! c25 \t <entrypoint artifact path>
+//!        => <n> (\t <hex trail> = <hex selected artifact | !missing | entry:…>)*
+//! c10 \t <entrypoint artifact path> \t <response seed> \t <shape>
+//!        => <hex variables JSON> \t <hex response JSON> \t <runtime outcome>
+//! ```
+//!
+//! `HX_ENGINE` = c09 | c10 | c25 selects what `gen` emits; `run` answers every kind of line.
+mod graphwire;
+mod node;
+mod resp;
+mod witness;
+
+use hx_common::*;
+use hx_projgen::compile::{compile_files, load_demo, CompileResult, Outcome, DEMOS};
+use hx_projgen::gen::{generate, Alphabet, GenOpts};
+use hx_projgen::model::*;
+use hx_projgen::render::{render, render_schema, RenderOpts};
+use hx_projgen::wire::{from_wire, to_wire};
+use node::{files_json, Node};
+use serde_json::{json, Value};
+use std::collections::BTreeMap;
+
+fn engine() -> String {
+    std::env::var("HX_ENGINE").unwrap_or_else(|_| "c09".to_string())
+}
+
+// ---------------------------------------------------------------------------------------------
+// streams
+// ---------------------------------------------------------------------------------------------
+
+pub fn opts_for(tag: &str) -> GenOpts {
+    match tag {
+        "safe" => GenOpts::safe(),
+        "objvar" => GenOpts { pct_var_in_object: 70, pct_input_object: 90, pct_field_args: 70, pct_variable: 60, ..GenOpts::default() },
+        "risky" => GenOpts { strings: Alphabet::Risky, pct_field_args: 70, pct_variable: 20, ..GenOpts::default() },
+        "refetch" => GenOpts {
+            pct_special_fields: 45,
+            pct_loadable: 30,
+            pct_pointer: 40,
+            pct_expose_field: 90,
+            pct_mutation: 70,
+            pct_node_interface: 95,
+            max_decls: 8,
+            pct_var_in_object: 0,
+            negative_ints: false,
+            strings: Alphabet::Word,
+            pct_field_args: 60,
+            ..GenOpts::default()
+        },
+        "saferefetch" => GenOpts {
+            pct_special_fields: 45,
+            pct_pointer: 40,
+            pct_expose_field: 90,
+            pct_mutation: 70,
+            pct_node_interface: 95,
+            max_decls: 8,
+            ..GenOpts::safe()
+        },
+        _ => GenOpts::default(),
+    }
+}
+
+fn tag_for(r: &mut Rng, engine: &str) -> &'static str {
+    let k = r.below(100);
+    match engine {
+        "c25" => {
+            if k < 45 { "refetch" } else if k < 65 { "saferefetch" } else if k < 85 { "default" } else { "safe" }
+        }
+        "c10" => {
+            if k < 35 { "default" } else if k < 60 { "safe" } else if k < 80 { "refetch" } else if k < 90 { "saferefetch" } else { "objvar" }
+        }
+        _ => {
+            if k < 40 { "default" } else if k < 60 { "safe" } else if k < 72 { "objvar" } else if k < 84 { "risky" } else { "refetch" }
+        }
+    }
+}
+
+// ---------------------------------------------------------------------------------------------
+// the current case
+// ---------------------------------------------------------------------------------------------
+
+pub struct Current {
+    pub project: Option<Project>,
+    pub schema_sdl: String,
+    pub pointers: Vec<(String, String, String)>, // (parent type, field, target type)
+    pub outcome: Outcome,
+    pub values: Option<Value>,
+    pub graph: Option<Value>,
+}
+
+fn demo_pointers(files: &BTreeMap<std::path::PathBuf, Vec<u8>>) -> Vec<(String, String, String)> {
+    // `pointer Type.field to Target` inside iso literals
+    let mut out = vec![];
+    for (_, bytes) in files {
+        let text = String::from_utf8_lossy(bytes);
+        let toks: Vec<&str> = text.split(|c: char| c.is_whitespace() || c == '`').filter(|t| !t.is_empty()).collect();
+        for w in toks.windows(4) {
+            if w[0] == "pointer" && w[2] == "to" {
+                if let Some((t, f)) = w[1].split_once('.') {
+                    let target: String = w[3].chars().take_while(|c| c.is_alphanumeric() || *c == '_').collect();
+                    out.push((t.to_string(), f.to_string(), target));
+                }
+            }
+        }
+    }
+    out
+}
+
+pub fn compile_spec(spec: &str) -> Option<Current> {
+    if let Some(name) = spec.strip_prefix("demo:") {
+        let files = load_demo(name)?;
+        let cfg: Value = serde_json::from_slice(files.get(std::path::Path::new("isograph.config.json"))?).ok()?;
+        let schema_rel = cfg["schema"].as_str()?.trim_start_matches("./").to_string();
+        let schema_sdl = String::from_utf8_lossy(files.get(std::path::Path::new(&schema_rel))?).to_string();
+        let pointers = demo_pointers(&files);
+        let outcome = compile_files(&files);
+        Some(Current { project: None, schema_sdl, pointers, outcome, values: None, graph: None })
+    } else {
+        let p = from_wire(spec)?;
+        let files = render(&p, &RenderOpts::default());
+        let outcome = compile_files(&files);
+        let pointers = p
+            .decls
+            .iter()
+            .filter_map(|(_, d)| match d {
+                Decl::ClientPointer(c) => Some((c.parent.clone(), c.name.clone(), c.to.inner().to_string())),
+                _ => None,
+            })
+            .collect();
+        let schema_sdl = render_schema(&p.schema);
+        Some(Current { project: Some(p), schema_sdl, pointers, outcome, values: None, graph: None })
+    }
+}
+
+fn case_answer(c: &Current) -> String {
+    match &c.outcome.result {
+        CompileResult::Ok(_) => {
+            let ptrs: Vec<String> =
+                c.pointers.iter().map(|(t, f, to)| format!("{}.{}={}", hex(t.as_bytes()), hex(f.as_bytes()), hex(to.as_bytes()))).collect();
+            format!("ok\t{}\t{}", hex(c.schema_sdl.as_bytes()), if ptrs.is_empty() { "-".to_string() } else { ptrs.join(" ") })
+        }
+        CompileResult::Diagnostics(ds) => {
+            let mut kinds: Vec<String> = ds.iter().map(|d| d.kind.clone()).collect();
+            kinds.sort();
+            kinds.dedup();
+            format!("diag\t{}", kinds.join(","))
+        }
+        CompileResult::Panic(m) => format!("panic\t{}", hex(m.as_bytes())),
+    }
+}
+
+fn is_query_text(path: &str) -> bool {
+    let b = path.rsplit('/').next().unwrap_or(path);
+    b == "query_text.ts" || (b.starts_with("__refetch__query_text__") && b.ends_with(".ts"))
+}
+
+fn ensure_values<'a>(c: &'a mut Current, node: &mut Node) -> &'a Value {
+    if c.values.is_none() {
+        let ans = node.call(&json!({"op": "values", "files": files_json(&c.outcome.artifacts)}));
+        c.values = Some(ans);
+    }
+    c.values.as_ref().unwrap()
+}
+
+fn ensure_graph<'a>(c: &'a mut Current, node: &mut Node) -> &'a Value {
+    if c.graph.is_none() {
+        let ans = node.call(&json!({"op": "graph", "files": files_json(&c.outcome.artifacts)}));
+        c.graph = Some(ans);
+    }
+    c.graph.as_ref().unwrap()
+}
+
+fn c09_answer(c: &mut Current, node: &mut Node, path: &str) -> String {
+    let Some(content) = c.outcome.artifacts.get(path).cloned() else { return "missing".to_string() };
+    let values = ensure_values(c, node);
+    let v = &values["values"][path];
+    let value = if let Some(s) = v["ok"].as_str() {
+        format!("v:{}", hex(s.as_bytes()))
+    } else {
+        format!("e:{}", v["err"].as_str().unwrap_or("no-answer").replace(['\t', '\n'], " "))
+    };
+    format!("{}\t{}", hex(&content), value)
+}
+
+fn graph_answer(c: &mut Current, node: &mut Node) -> String {
+    let g = ensure_graph(c, node);
+    if let Some(e) = g["err"].as_str() {
+        return format!("e:{}", hex(e.as_bytes()));
+    }
+    graphwire::graph_wire(&g["graph"])
+}
+
+fn c25_answer(c: &mut Current, node: &mut Node, entry: &str) -> String {
+    let g = ensure_graph(c, node).clone();
+    if g["err"].is_string() {
+        return "nograph".to_string();
+    }
+    let ans = node.call(&json!({"op": "walk", "graph": g["graph"], "entry": entry}));
+    let Some(items) = ans["walk"].as_array() else {
+        return format!("e:{}", hex(ans["err"].as_str().unwrap_or("no-answer").as_bytes()));
+    };
+    let mut out = vec![items.len().to_string()];
+    for it in items {
+        out.push(format!("{}={}", hex(it[0].as_str().unwrap_or("").as_bytes()), hex(it[1].as_str().unwrap_or("").as_bytes())));
+    }
+    out.join("\t")
+}
+
+// ---------------------------------------------------------------------------------------------
+// gen / run
+// ---------------------------------------------------------------------------------------------
+
+fn lines_for_case(engine: &str, i: u64, tag: &str, spec: &str, r: &mut Rng) -> Vec<String> {
+    let mut lines = vec![format!("case\t{i}\t{tag}\t{spec}")];
+    let Some(c) = compile_spec(spec) else { return lines };
+    if !c.outcome.result.is_ok() {
+        return lines;
+    }
+    let entrypoints: Vec<&String> = c.outcome.artifacts.keys().filter(|k| k.ends_with("/entrypoint.ts")).collect();
+    match engine {
+        "c09" => {
+            for k in c.outcome.artifacts.keys().filter(|k| is_query_text(k)) {
+                lines.push(format!("c09\t{k}"));
+            }
+        }
+        "c25" => {
+            lines.push("graph".to_string());
+            for e in entrypoints {
+                lines.push(format!("c25\t{e}"));
+            }
+        }
+        "c10" => {
+            lines.push("graph".to_string());
+            for e in entrypoints {
+                for shape in ["full", "random", "random", "sparse"] {
+                    lines.push(format!("c10\t{e}\t{}\t{shape}", r.next() % 1_000_000));
+                }
+            }
+        }
+        _ => {}
+    }
+    lines
+}
+
+pub fn lines_for_case_pub(engine: &str, i: u64, tag: &str, spec: &str) -> Vec<String> {
+    let mut r = Rng::new(1, i);
+    lines_for_case(engine, i, tag, spec, &mut r)
+}
+
+fn gen_case(r: &mut Rng, i: u64) -> Vec<String> {
+    let engine = engine();
+    if (i as usize) < DEMOS.len() {
+        let spec = format!("demo:{}", DEMOS[i as usize]);
+        return lines_for_case(&engine, i, "demo", &spec, r);
+    }
+    let tag = tag_for(r, &engine);
+    let p = generate(r, &opts_for(tag));
+    lines_for_case(&engine, i, tag, &to_wire(&p), r)
+}
+
+fn main() {
+    let args: Vec<String> = std::env::args().collect();
+    if args.get(1).map(|s| s.as_str()) == Some("witness") {
+        witness::main(&args[2..]);
+        return;
+    }
+    if args.get(1).map(|s| s.as_str()) == Some("show") {
+        // show <wire>: print the rendered project files (debugging aid)
+        let p = from_wire(&args[2]).expect("wire");
+        for (path, bytes) in render(&p, &RenderOpts::default()) {
+            println!("=== {}\n{}", path.display(), String::from_utf8_lossy(&bytes));
+        }
+        return;
+    }
+    let mut node: Option<Node> = None;
+    let mut rt: Option<Node> = None;
+    let mut current: Option<Current> = None;
+    main_loop(&gen_case, &mut |f| {
+        let r = std::panic::catch_unwind(std::panic::AssertUnwindSafe(|| match f[0] {
+            "case" => {
+                if f.len() < 4 {
+                    return "bad-case".to_string();
+                }
+                current = compile_spec(f[3]);
+                match &current {
+                    Some(c) => case_answer(c),
+                    None => "bad-spec".to_string(),
+                }
+            }
+            "c09" | "graph" | "c25" | "c10" => {
+                let Some(c) = current.as_mut() else { return "nocase".to_string() };
+                if !c.outcome.result.is_ok() {
+                    return "notcompiled".to_string();
+                }
+                let n = node.get_or_insert_with(|| Node::spawn("ops_eval.mjs", &[]));
+                match f[0] {
+                    "c09" => c09_answer(c, n, f.get(1).copied().unwrap_or("")),
+                    "graph" => graph_answer(c, n),
+                    "c25" => c25_answer(c, n, f.get(1).copied().unwrap_or("")),
+                    _ => {
+                        let g = ensure_graph(c, n).clone();
+                        let rtn = rt.get_or_insert_with(|| Node::spawn("ops_runtime.mjs", &["/repo/libs/isograph-react/src/core"]));
+                        resp::c10_answer(c, &g, rtn, &f)
+                    }
+                }
+            }
+            _ => "bad-op".to_string(),
+        }));
+        match r {
+            Ok(s) => s,
+            Err(_) => {
+                node = None;
+                rt = None;
+                "harness-panic".to_string()
+            }
+        }
+    });
+}
